@@ -374,6 +374,64 @@ fn binary_ops(acc: &mut Acc, a: i128, bs: &[i128], ks: &[i32], out: &mut BTreeSe
     }
 }
 
+/// Sum over every sequence of up to five durations from a small alphabet whose sub-second parts carry (up to four
+/// whole seconds of carry in one sum), by value and by reference: the exact total whenever every partial sum is in range
+/// (Sum is a fold of `+`, so an out-of-range partial sum may panic)
+fn sum_sequences(acc: &mut Acc) {
+    const S: i128 = 1_000_000_000;
+    let max_ns: i128 = (i64::MAX as i128) * 1_000_000;
+    let alpha: [i128; 10] = [0, 999_999_999, 3 * S + 880_000_250, 41 * S + 655_500_000, 11_318_400 * S + 712_000_000, -1, -999_999_999, -(7 * S) - 500_000_000, max_ns, -max_ns];
+    let n = alpha.len();
+    let mut idx = vec![0usize; 0];
+    for len in 0..=5usize {
+        idx.clear();
+        idx.resize(len, 0);
+        loop {
+            let seq: Vec<i128> = idx.iter().map(|&i| alpha[i]).collect();
+            let mut partial_ok = true;
+            let mut t = 0i128;
+            for v in &seq {
+                t += v;
+                if !in_range(t) {
+                    partial_ok = false;
+                }
+            }
+            let ds: Vec<TimeDelta> = seq.iter().map(|&v| mk_delta(v)).collect();
+            let r1 = guard(|| ds.iter().sum::<TimeDelta>());
+            let r2 = guard(|| ds.clone().into_iter().sum::<TimeDelta>());
+            acc.transitions += 2;
+            for (form, r) in [("iter().sum()", &r1), ("into_iter().sum()", &r2)] {
+                match r {
+                    Ok(d) if in_range(t) && delta_ns(*d) == t => acc.hit(OP_OK),
+                    Err(_) if !partial_ok => acc.hit(OP_PANIC),
+                    r => acc.violation("TimeDelta::sum-sequence", format!("{:?} (ns) as TimeDeltas .{}", seq, form), if partial_ok { format!("{} ns", t) } else { "the exact total or a panic at an out-of-range partial sum".into() }, format!("{:?}", r)),
+                }
+            }
+            // next sequence
+            let mut k = len;
+            loop {
+                if k == 0 {
+                    break;
+                }
+                k -= 1;
+                idx[k] += 1;
+                if idx[k] < n {
+                    break;
+                }
+                idx[k] = 0;
+                if k == 0 {
+                    k = usize::MAX;
+                    break;
+                }
+            }
+            if len == 0 || k == usize::MAX {
+                break;
+            }
+        }
+    }
+    acc.traces += 1;
+}
+
 fn main() {
     install_panic_hook();
     let args = parse_args();
@@ -395,6 +453,7 @@ fn main() {
     let mut acc = explore_units(n + 1, CLASSES.len(), only, |u, acc| {
         if u == 0 {
             constructors(acc);
+            sum_sequences(acc);
             return;
         }
         let a = vals[(u - 1) as usize];
